@@ -153,7 +153,7 @@ class Contract:
                  loops=None, modifies=(), ghosts=None, inline=False, trusted=False,
                  covers=(), native=None, result=None, note='', exact_raises=True,
                  dropped=(), opaque=None, floor=1, name=None, pure_result=False,
-                 assumes=(), variant='', uses=(), abstract_classes=None, reveal=(), cases=None, yields=None, then_call=None, pure_expr=None, shards=1, returns=None, opaque_attrs=None, opaque_fns=None, pure_ignores_raises=False, effects=None, method_effects=None, on_raise=(), region=None, opaque_classes=(), native_classes=(), ghost_seqs=None, opaque_globals=None):
+                 assumes=(), variant='', uses=(), abstract_classes=None, reveal=(), cases=None, yields=None, then_call=None, pure_expr=None, shards=1, returns=None, opaque_attrs=None, opaque_fns=None, pure_ignores_raises=False, effects=None, method_effects=None, on_raise=(), region=None, opaque_classes=(), native_classes=(), ghost_seqs=None, opaque_globals=None, volatile_attrs=None):
         self.prop = prop
         self.file = file
         self.qual = qual
@@ -185,6 +185,7 @@ class Contract:
         self.effects = effects or {}            # global functions that are effects: name -> [exception names they may raise]; recorded in __trace__
         self.method_effects = method_effects or {}   # methods of objects that are effects: name -> [exception names] (recorded in __trace__)
         self.opaque_globals = opaque_globals or {}   # module-level objects (name -> Sort) replaced by an arbitrary symbolic value of that sort for this proof: the contract says nothing about them, writes stay inside the model
+        self.volatile_attrs = volatile_attrs or {}   # attributes of opaque objects that the outside world changes (Process.returncode): every read is a fresh unknown value
         self.ghost_seqs = ghost_seqs or {}      # ghost sequences of effect arguments: name -> (event name, index into the event tuple, element sort); symbolic, usable in loop invariants
         self.on_raise = list(on_raise)          # exceptional postconditions: hold whenever an exception escapes (names: __trace__, __exc__)
         self.native_classes = list(native_classes)   # immutable value classes of the repo that may be constructed natively from concrete arguments
